@@ -14,7 +14,7 @@ AKAI_FILE = ["A", "A L", "A R", "A-L", "A -R", "A.", "A..", "-A", "A+", ".", "..
              "", "A.L", "-L", "-R"]
 AKAI_DIR = ["A", "A.", "A..", "-A", "A+", "A-", ".A", "#", "A+B", "A B", "0", "", ".", ".."]
 HOSTILE = ["a", "a/b", "a\\b", "..", "../x", "/abs", ".", "", " ", "a.", "a .", "a..", "-a", '"q"', "a'b", "\x01a",
-           "a:b", "a*?", "A", "a (2)", "\xe9", "a L", "a R", " -L", " -R"]
+           "a:b", "a*?", "A", "a (2)", "\xe9", "a L", "a R", " -L", " -R", "/", "<\\>", "?/?"]
 ABS = "@ABS@"      # replaced by an absolute path that lies in the watched scratch area
 
 
